@@ -260,6 +260,29 @@ pub fn streams_with(tier: &str, lists: usize) -> Vec<StreamGen> {
         };
         v.push(stream_gen("ipfix-wide-templates", nw * 6, move |i| Some(mk(i))));
     }
+    // 7b. the same information element listed twice (or three times) with different widths
+    {
+        let menu: Vec<(u16, Vec<u16>)> = vec![(1, vec![1, 2, 4, 8]), (82, vec![2, 5, 65535]), (434, vec![1, 2, 4]), (152, vec![4, 8])];
+        let mut cases: Vec<Vec<FieldSpec>> = vec![];
+        for (ty, ws) in &menu {
+            for a in ws {
+                for b in ws {
+                    if a != b {
+                        cases.push(vec![fs(*ty, *a), fs(7, 2), fs(*ty, *b)]);
+                        cases.push(vec![fs(*ty, *a), fs(*ty, *b), fs(*ty, *a)]);
+                    }
+                }
+            }
+        }
+        let nc = cases.len() as u64;
+        let mk = move |i: u64| -> Vec<Vec<u8>> {
+            let d = digits(i, &[nc, 3]);
+            let fields = cases[d[0] as usize].clone();
+            let body = body_for(&fields, 2, 0, None);
+            deliver(IpfixSet::Tpl(vec![IpfixTpl { id: 256, fields }], 0), IpfixSet::Data(256, body), d[1])
+        };
+        v.push(stream_gen("ipfix-same-element-at-different-widths", nc * 3, move |i| Some(mk(i))));
+    }
     // 8. many records per data set: counts around every power of two up to what one message holds, four template
     // shapes (one with a variable-length element), template delivered in the same message / same buffer / earlier call
     {
